@@ -75,6 +75,15 @@ def modules(tier):
     fdecl.append("@overload\ndef f(a: %s, b: int) -> int: ...\n@overload\ndef f(a: %s) -> int: ..." % (p, q))
     fdecl.append("def f(a: list[%s]) -> None:\n    a = list[Union[%s, %s]]" % (p, p, q))
     fdecl.append("def f(a: Union[%s, %s], *args: %s, **kwargs: %s) -> Union[%s, %s]: ..." % (p, q, p, q, q, p))
+  # overloads whose parameter is a union that a hierarchy simplification can collapse onto the other
+  # overload's parameter (signatures that only coincide after a pass)
+  small = ["int", "bool", "A", "B", "D", "str", "float"]
+  for u in itertools.permutations(small, 2):
+    for q in small:
+      for r1, r2 in (("int", "str"), ("int", "int"), ("A", "B")):
+        fdecl.append("@overload\ndef f(a: Union[%s, %s]) -> %s: ...\n@overload\ndef f(a: %s) -> %s: ..." % (u[0], u[1], r1, q, r2))
+        if tier != "quick" or u[0] < u[1]:
+          fdecl.append("@overload\ndef f(a: %s) -> %s: ...\n@overload\ndef f(a: Union[%s, %s]) -> %s: ..." % (q, r2, u[0], u[1], r1))
   # methods / class constants
   cdecl = []
   for a, b in itertools.permutations(CORE, 2):
